@@ -308,6 +308,21 @@ pub fn run(args: &Args) {
         }
         roundtrips(&mut rep, &mut rng, i);
         several_tokens(&mut rep, &mut rng);
+        if i % 6 == 0 {
+            // long bodies, well-formed or not, with multi-byte characters where text gets cut
+            let around = [16usize, 32, 64, 100, 128, 160, 200, 256, 512, 1024, 4096][rng.below(11)];
+            let n = (around + rng.below(9)).saturating_sub(6);
+            let filler: String = (0..n).map(|k| [b'a', b'x', b' '][k % 3] as char).collect();
+            let wide: String = (0..1 + rng.below(4)).map(|_| ["é", "日", "\u{1F600}", "ÿ", "\u{7f}"][rng.below(5)]).collect();
+            let tail = ["", "", "", "\\x", "\\", "\u{1}", "\\u12", "\\ud800", "\\n", "\\'"][rng.below(10)];
+            let body = format!("{}{}{}", filler, wide, tail);
+            let form = rng.below(3) as u8;
+            decoder_agreement(&mut rep, &body, form);
+            if form == 1 {
+                decoder_agreement(&mut rep, &format!("\"{}\"", body), 1);
+                decoder_agreement(&mut rep, &format!("[\"{}\", ]", body), 1);
+            }
+        }
     }
     emit_report(args, &rep);
 }
